@@ -871,12 +871,17 @@ where
 /// // This would be valid for SUBSCRIBE packets
 /// ```
 fn validate_subscribe_properties(props: &Properties) -> Result<(), MqttError> {
+    let mut count_subscription_identifier = 0;
     for prop in props {
         match prop {
-            Property::SubscriptionIdentifier(_) => {}
+            Property::SubscriptionIdentifier(_) => count_subscription_identifier += 1,
             Property::UserProperty(_) => {}
             _ => return Err(MqttError::ProtocolError),
         }
+    }
+    // The Subscription Identifier may appear at most once in a SUBSCRIBE packet
+    if count_subscription_identifier > 1 {
+        return Err(MqttError::ProtocolError);
     }
     Ok(())
 }
